@@ -129,4 +129,35 @@ theorem rsCount_pos_of_node (x : Nat) (nodes : List Node) (i : Nat) (n : Node) (
   simp only [List.mem_filter, List.mem_map, beq_iff_eq, and_true]
   exact ⟨n, ⟨List.mem_of_getElem? hn, by simp [hl]⟩, hu⟩
 
+/-- one node per constructor of the de-duplicated lifecycle (proof of `dedup_unique`) -/
+theorem closure_dedup (lk : Nat → Option CDef) (pre : List Nat) (once : Life) (hne : once ≠ .transient)
+    (fuel : Nat) (ins : List (Nat × Mode)) :
+    ((closureOf lk pre once fuel ins).1.idsOf once).Nodup := by
+  apply closureOf_preserves (fun cl => (cl.idsOf once).Nodup)
+  · intro cl ty m h; exact h
+  · intro cl c srcs h ht
+    show ((cl.push c srcs).1.idsOf once).Nodup
+    rw [idsOf_push]
+    have : c.life ≠ once := by rw [ht]; exact fun h => hne h.symm
+    simpa [this] using h
+  · intro cl c srcs h hl _ _ hf
+    show ((cl.push c srcs).1.idsOf once).Nodup
+    rw [idsOf_push]
+    simp only [hl, if_true]
+    rw [List.nodup_append]
+    refine ⟨h, by simp, ?_⟩
+    intro a ha b hb
+    simp only [List.mem_singleton] at hb
+    subst hb
+    intro hab
+    subst hab
+    rw [List.findIdx?_eq_none_iff] at hf
+    unfold Closure.idsOf at ha
+    simp only [List.mem_map, List.mem_filter] at ha
+    obtain ⟨n, ⟨hn, _⟩, hu⟩ := ha
+    have := hf n hn
+    simp [hu] at this
+  · simp [Closure.idsOf]
+
+
 end Pxv.Life
